@@ -129,9 +129,11 @@ type c01Write struct {
 	release chan bool
 }
 
+// one view per job process (gen) on the shared storage, so that a write is attributed to the job that issued it
 type c01Loc struct {
 	w   *c01World
-	mu  sync.Mutex
+	gen int
+	mu  *sync.Mutex
 	loc locations.StorageLocation
 }
 
@@ -145,9 +147,15 @@ func (l *c01Loc) Write(path string, data io.Reader) (string, error) {
 		if err := gproto.Unmarshal(b, &ck); err == nil {
 			pw := &c01Write{id: ck.Id, release: make(chan bool, 1)}
 			l.w.mu.Lock()
-			pw.gen = l.w.jobGen
-			l.w.writes = append(l.w.writes, pw)
+			pw.gen = l.gen
+			dead := l.gen != l.w.jobGen || l.w.jobDown
+			if !dead {
+				l.w.writes = append(l.w.writes, pw)
+			}
 			l.w.mu.Unlock()
+			if dead {
+				return "", fmt.Errorf("harness: job process died before the write")
+			}
 			select {
 			case ok := <-pw.release:
 				if !ok {
@@ -830,6 +838,7 @@ func (w *c01World) opFactory(senderID string, node *jobpb.NodeIdentity) proto.Op
 func (w *c01World) newJob(n int) error {
 	w.mu.Lock()
 	w.jobGen++
+	gen := w.jobGen
 	w.mu.Unlock()
 	clk := newC01Clock()
 	quiet := slog.New(slog.NewTextHandler(c01Discard{}, nil))
@@ -838,7 +847,7 @@ func (w *c01World) newJob(n int) error {
 			Sources: []connectors.SourceConfig{c01Source{w}}},
 		Clock:             clk,
 		HeartbeatDeadline: c01Heartbeat * time.Second,
-		Store:             w.loc,
+		Store:             &c01Loc{w: w, gen: gen, mu: w.loc.mu, loc: w.loc.loc},
 		Logger:            quiet,
 		OperatorFactory:   w.opFactory,
 		SourceRunnerFactory: func(node *jobpb.NodeIdentity) proto.SourceRunner {
@@ -978,7 +987,7 @@ func newC01World(n, kgc, nsplits, batch, readBatch, nkeys, rot int) (*c01World, 
 	w.cfg.kgc, w.cfg.nsplits, w.cfg.batch, w.cfg.readBatch, w.cfg.nkeys, w.cfg.rot = kgc, nsplits, batch, readBatch, nkeys, rot
 	w.splits = make([][]int, nsplits)
 	w.cur = make([]int, nsplits)
-	w.loc = &c01Loc{w: w, loc: mem}
+	w.loc = &c01Loc{w: w, mu: &sync.Mutex{}, loc: mem}
 	go func() {
 		for {
 			select {
